@@ -147,28 +147,48 @@ func runLinz(o Opts) *Result {
 		var walkErr atomic.Value
 		var wg, wwg sync.WaitGroup
 		wwg.Add(1)
-		go func() { // concurrent Walk monitor
+		go func() { // concurrent Walk monitor: every reported entry is a read of that key at the moment the iteration produced it
 			defer wwg.Done()
+			walks := 0
 			for {
 				select {
 				case <-stop:
 					return
 				default:
 				}
+				if walks >= 2 {
+					time.Sleep(20 * time.Microsecond)
+					continue
+				}
+				walks++
 				seen := map[string]int{}
-				for _, e := range b.Walk() {
+				prev := atomic.AddInt64(&ctr, 1)
+				b.WalkCB(func(e EntryObs) {
+					ret := atomic.AddInt64(&ctr, 1)
 					seen[e.Key]++
 					for k := 1; k <= 7; k++ {
-						if string(keyBytes[k]) == e.Key && !written[k][e.V] {
+						if string(keyBytes[k]) != e.Key {
+							continue
+						}
+						if !written[k][e.V] {
 							walkErr.Store(fmt.Sprintf("Walk reported value %d for key k%d that was never written for it", e.V, k))
 						}
+						if k <= 5 {
+							r := fmt.Sprintf("hit:%d", e.V)
+							if e.E != 0 {
+								r = fmt.Sprintf("exp:%d", e.V)
+							}
+							record(lzEvent{op: fmt.Sprintf("r:%d", k), res: r, inv: prev, ret: ret, keys: []int{k}})
+						}
 					}
-				}
+					prev = atomic.AddInt64(&ctr, 1)
+				})
 				for _, k := range []int{6, 7} {
 					if !hasDA && seen[string(keyBytes[k])] != 1 {
 						walkErr.Store(fmt.Sprintf("Walk visited the untouched entry k%d %d times", k, seen[string(keyBytes[k])]))
 					}
 				}
+				res.count("walks")
 			}
 		}()
 		start := make(chan struct{})
